@@ -51,7 +51,8 @@ sexp json_read_number (sexp ctx, sexp self, sexp in) {
     for (ch = sexp_read_char(ctx, in); isdigit(ch); scale *= 10, ch = sexp_read_char(ctx, in))
       res = res * 10 + ch - '0';
     res /= scale;
-  } else if (ch == 'e') {
+  }
+  if (ch == 'e' || ch == 'E') {
     inexactp = 1;
     ch = sexp_read_char(ctx, in);
     if (ch == '+') {
